@@ -66,7 +66,8 @@ def leaf_queries():
             q('leaf_hasvalidops_n11', 'h_hasvalidops', 11, 16, 'thorough', bounded='all scripts of at most 11 bytes'),
             q('leaf_casttobool', 'h_casttobool', 8, 80, bounded='values of at most 80 bytes (the loop is length-generic; 520 in the thorough tier)'),
             q('leaf_casttobool_k520', 'h_casttobool', 8, 520, 'thorough'),
-            q('leaf_checkminimalpush', 'h_checkminimalpush', 8, 8)]
+            q('leaf_checkminimalpush', 'h_checkminimalpush', 8, 8),
+            Query('leaf_condstack', 'harness', ULF.unit_condstack, 'h_condstack', unwind=8, timeout=600, functions=['debugger/see.h: ConditionStack (size, empty, all_true, at, push_back, pop_back, toggle_top)'])]
 QUERIES = step_queries() + leaf_queries() + [L.END_OF_SCRIPT, L.INSTANCE_STEP, L.CTOR, L.CONTINUE]
 META = {
  'level': 'proof',
